@@ -159,6 +159,7 @@ def fs_call(kind):
         p = args[0] if args else next((kwargs[k] for k in ("name", "path", "file", "p", "s", "filename") if k in kwargs), None)   # os.makedirs(name=...), open(file=...)
         temp = st.ghost.get("temp_dir")
         label = "every-path-argument-is-inside-the-private-temp-dir"     # one id for all sites: call ordinals / primitive names may change
+        st.ghost["fs_calls"] = st.ghost.get("fs_calls", ()) + (f"{ex.loc(node)} {kind}",)
         if temp is None or not isinstance(p, VStr):
             ex.add_vc("fs-confined", label, st.pc, z3.BoolVal(False), note=f"{ex.loc(node)} {kind}: no private temp dir in scope / path not a string", loc=ex.loc(node))
         else:
@@ -222,6 +223,7 @@ class FsExecutor(Executor):
         return sup(st, args, kwargs, node) if sup is not None else self.havoc_call(st, "sum", args, node)
 
     def havoc_call(self, st, what, args, node):
+        st.ghost["opaque_calls"] = st.ghost.get("opaque_calls", ()) + ((str(what), tuple(args), self.loc(node)),)
         st.assume(OVER)          # before the fork: "may raise any Exception" is part of the over-approximation
         return super().havoc_call(st, what, args, node)
 
@@ -258,6 +260,14 @@ def install(reg):
             reg.ext_models[k] = fs_call(k)
     reg.ext_models[("with", "File")] = with_file
 
+    def m_bytesio(ex, st, args, kwargs, node):
+        """io.BytesIO(data): an in-memory stream over `data` (no file); remembered so that a contract can say WHAT an extractor is handed"""
+        ex.exc_any(st.fork(), f"{ex.loc(node)} io.BytesIO")
+        v = VExt("BytesIO")
+        st.ghost[("bytesio", v.t.get_id())] = args[0] if len(args) == 1 and not kwargs else None
+        return [(st, v)]
+    reg.ext_models["io.BytesIO"] = m_bytesio
+
 
 EXECUTOR = FsExecutor
 SUP = z3.Function("is_supported_file_cached", S, z3.BoolSort())
@@ -283,6 +293,11 @@ def contracts(reg):
     p7_files, p7_temp, p7_arch = real_params(ARCH, "_process_7z_files_sequential", ("files_to_process", "temp_dir", "archive_path"))
     sk_file, sk_base = real_params(ARCH, "_should_skip_file", ("filename", "basename"))
     (sup_name,) = real_params(ARCH, "_is_supported_file_cached", ("filename",))
+
+    def no_fs(c):
+        calls = c.st.ghost.get("fs_calls", ())
+        c.note = "; ".join(calls)
+        return z3.BoolVal(not calls)
 
     def sj_raise(c):
         rel = c.args[sj_rel].t
@@ -317,10 +332,32 @@ def contracts(reg):
         requires=bind_temp, generator=True, raises=[],
         note="member names are arbitrary strings (absolute, dot-dot, names of host files)",
     ))
+    pe = real_params(ARCH, "_process_archive_entry", ("filename", "file_data", "archive_path", "basename"))
     out.append(FnContract(
-        target=f"{ARCH}::_process_archive_entry", assumed=True, generator=True,
-        params=[(n, p_unk()) for n in real_params(ARCH, "_process_archive_entry", ("filename", "file_data", "archive_path", "basename"))],
-        raises=[], note="verified by the C01 pack (raises nothing); works on in-memory bytes only"))
+        target=f"{ARCH}::_process_archive_entry", generator=True,
+        params=[(pe[0], p_str()), (pe[1], p_unk()), (pe[2], p_opt(p_str())), (pe[3], p_str())],
+        raises=[], total=True, ensures=[("no-file-system-call", lambda c: no_fs(c)), ("the-extractor-is-handed-the-member-bytes-as-an-in-memory-stream", lambda c: pe_stream(c))],
+        note="VERIFIED (round 7; was assumed from C01): touches no file (the member bytes go to the extractor in memory) and lets nothing escape; "
+             "callers see the same contract"))
+    def pe_stream(c):
+        """every call of the callable that _get_file_extractor_cached returned has ONE positional argument: io.BytesIO(<the file_data parameter>)
+        (a member name or any other string in that position would make the extractor open a host file)"""
+        bad = []
+        for (what, args, loc) in c.st.ghost.get("opaque_calls", ()):
+            if not what.startswith("unknown:extractor"):
+                continue
+            a = args[0] if len(args) == 1 else None
+            src = c.st.ghost.get(("bytesio", a.t.get_id())) if isinstance(a, VExt) and a.sort == "BytesIO" else None
+            if src is None or src is not c.args[pe[1]]:
+                bad.append(f"{loc}: extractor called with {list(args)!r}")
+        c.note = "; ".join(bad)
+        return z3.BoolVal(not bad)
+
+    (gx_name,) = real_params(ARCH, "_get_file_extractor_cached", ("filename",))
+    out.append(FnContract(
+        target=f"{ARCH}::_get_file_extractor_cached", assumed=True, params=[(gx_name, p_str())], may_raise_any=True,
+        result_maker=lambda ex, st, ctx: VUnk(fresh_name("extractor")),
+        note="lru_cache wrapper of router.get_extractor (VERIFIED against the routing specification: conformance obligation); here only: some callable or an exception"))
 
     # skip rule: _should_skip_file(filename, basename)  <=>  hidden | __MACOSX/ | unsupported | nested archive
     arch = loader.module(ARCH)
@@ -331,15 +368,24 @@ def contracts(reg):
         return VBool(z3.Or(z3.PrefixOf(z3.StringVal("."), b), z3.PrefixOf(z3.StringVal("__MACOSX/"), f),
                            z3.Not(SUP(b)), z3.Or([z3.SuffixOf(z3.StringVal(e), LOWER(b)) for e in nested])))
 
+    ROUTER = "sharepoint2text/parsing/router.py"
+    (r_path,) = real_params(ROUTER, "is_supported_file", ("path",))
     out.append(FnContract(
-        target=f"{ARCH}::_is_supported_file_cached", assumed=True, params=[(sup_name, p_str())],
-        returns=lambda c: VBool(SUP(c.args[sup_name].t)),
-        note="lru_cache wrapper of router.is_supported_file (verified by C07); memo soundness is C15's"))
+        target=f"{ROUTER}::is_supported_file", assumed=True, params=[(r_path, p_str())],
+        returns=lambda c: VBool(SUP(c.args[r_path].t)), raises=[],
+        note="call-site view: a function of the name (no file-system access). The function itself is VERIFIED against the routing specification "
+             "(contracts/c09_routing.py: C09/router.py/conformance#names-are-routed-as-specified), which implies this view"))
+    out.append(FnContract(
+        target=f"{ARCH}::_is_supported_file_cached", params=[(sup_name, p_str())],
+        returns=lambda c: VBool(SUP(c.args[sup_name].t)), raises=[], total=True,
+        ensures=[("no-file-system-call", no_fs)],
+        note="VERIFIED (round 7; was assumed): the member support check is router.is_supported_file of the very name it is given, touches no file and raises "
+             "nothing; callers see the same contract. lru_cache is transparent for a deterministic function (PY-MEMO; memo soundness is C15's)"))
     reg.ext_models["str.lower"] = lambda ex, st, args, kwargs, node: [(st, VStr(LOWER(args[0].t)))]
     out.append(FnContract(
         target=f"{ARCH}::_should_skip_file",
         params=[(sk_file, p_str()), (sk_base, p_str())],
-        returns=skip_spec,
+        returns=skip_spec, ensures=[("no-file-system-call", no_fs)],
         note="hidden members, macOS resource forks, unsupported types and nested archives are skipped",
     ))
     out.extend(writer_contracts(reg))
